@@ -51,7 +51,7 @@ Definition psolve_axis_check
 
 (** * the values (semiring-independent: the projection copies entries).
     Values on the wire: (tag, q) with tag 0 = finite q, 1 = +inf, 2 = -inf, 3 = nan.
-    Input: (n, m, zero, solution axis e, b.vaxes[1:], dense A (n x n), dense B (n x m, the
+    Input: ((n, m, zero), solution axis e, b.vaxes[1:], dense A (n x n), dense B (n x m, the
             dimensions after the first flattened row-major), observed operands of solve_thunks
             RA (p x p), RB (p x q), its observed result X (p x q), the dense result (n x m)).
     Verdicts: 0 ok; 4 RA is not the gather of A along e; 5 RB is not the gather of B;
@@ -64,9 +64,9 @@ Definition wmat_eqb (p q : nat) (X Y : list (list wv)) : bool :=
   forallb (fun i => forallb (fun j => wv_eqb (nth j (nth i X []) (3, 0%Q)) (nth j (nth i Y []) (3, 0%Q))) (seq 0 q)) (seq 0 p).
 
 Definition psolve_value_check
-  (x : nat * nat * wv * axis * list axis * list (list wv) * list (list wv)
+  (x : (nat * nat * wv) * axis * list axis * list (list wv) * list (list wv)
        * (list (list wv) * list (list wv) * list (list wv)) * list (list wv)) : nat :=
-  let '(n, m, z, e, ebs, A, B, (RA, RB, X), R) := x in
+  let '((n, m, z), e, ebs, A, B, (RA, RB, X), R) := x in
   let rows := sup_rows e in let cols := sup_cols ebs in
   let p := length rows in let q := length cols in
   if negb (shape_ok n n A && shape_ok n m B && shape_ok n m R && shape_ok p q X
